@@ -9,23 +9,56 @@
 (*     the SZX field is TWidth bits wide and stores T mod 2^TWidth when     *)
 (*     SzxReducesModFrame = FALSE (the behaviour before the repair)         *)
 (*   - Z80 drops MEMPTR                                                     *)
-(* Transparent: observable state (registers, memory, frame position) equal. *)
+(*   - the I/O devices trace.py keeps beside the CPU - border, the 0x7FFD   *)
+(*     latch with its lock bit, the AY register select (0xFFFD) and the 16  *)
+(*     AY registers (0xBFFD), read back through IN - are part of the        *)
+(*     machine: an OUT updates them, an IN from 0xFFFD returns the selected *)
+(*     register.  A 128K snapshot stores them; a 48K snapshot stores the    *)
+(*     border only although trace.py answers the AY ports on a 48K machine  *)
+(*     too (named deviation AyLostOn48K, an open finding of C10).           *)
+(* Transparent: observable state (registers, memory, frame position,        *)
+(* devices) equal.                                                          *)
 (***************************************************************************)
 EXTENDS Z80
 
 CONSTANTS Frame, IA,           \* scaled frame duration and INT window
           TMod,                \* the SZX T-state field stores T mod TMod
           SzxReducesModFrame,  \* TRUE: the writer reduces T modulo the frame first
-          Programs,            \* set of <<r0, ov0>> start states
+          Programs,            \* set of <<r0, ov0, m128>> start states (m128 = 1: 128K machine)
+          AyLostOn48K,         \* TRUE: what skoolkit does (a 48K snapshot has no AY state)
           MaxSteps
 
 VARIABLES live, shadow, saved, n
 vars == <<live, shadow, saved, n>>
 
-S(m) == [r |-> m.r, ov |-> m.ov, inv |-> 255, frame |-> Frame, ia |-> IA, tA |-> -1]
-Run(m) == LET e == StepInt(S(m), TRUE) IN [r |-> e.r, ov |-> m.ov \o e.wr]
+-----------------------------------------------------------------------------
+(* devices: [border, o7, fffd, ay] *)
+Dev0 == [border |-> 0, o7 |-> 0, fffd |-> 0, ay |-> [k \in 0..15 |-> 0]]
+IsUla(port) == port % 2 = 0
+Is7ffd(port) == Bit(port, 15) = 0 /\ Bit(port, 1) = 0
+IsAySelect(port) == Bit(port, 15) = 1 /\ Bit(port, 14) = 1 /\ Bit(port, 1) = 0
+IsAyData(port) == Bit(port, 15) = 1 /\ Bit(port, 14) = 0 /\ Bit(port, 1) = 0
+Out1(d, port, v) ==
+  LET d1 == IF IsUla(port) THEN [d EXCEPT !.border = v % 8] ELSE d
+      d2 == IF Is7ffd(port) /\ Bit(d1.o7, 5) = 0 THEN [d1 EXCEPT !.o7 = v] ELSE d1
+      d3 == IF IsAySelect(port) THEN [d2 EXCEPT !.fffd = v]
+            ELSE IF IsAyData(port) /\ d2.fffd < 16 THEN [d2 EXCEPT !.ay[d2.fffd] = v] ELSE d2
+  IN d3
+DevAfter(d, io) ==
+  LET F[k \in 0..Len(io)] == IF k = 0 THEN d ELSE IF io[k][1] = "o" THEN Out1(F[k - 1], io[k][2], io[k][3]) ELSE F[k - 1]
+  IN F[Len(io)]
 
-Init == /\ \E p \in Programs : live = [r |-> p[1], ov |-> p[2]] /\ shadow = [r |-> p[1], ov |-> p[2]]
+S(m, inv) == [r |-> m.r, ov |-> m.ov, inv |-> inv, frame |-> Frame, ia |-> IA, tA |-> -1]
+\* an IN from the AY select port reads the selected register back (255 when none is selected)
+InValue(m) ==
+  LET e0 == StepInt(S(m, 255), TRUE)
+      ayin == \E k \in 1..Len(e0.io) : e0.io[k][1] = "i" /\ IsAySelect(e0.io[k][2])
+  IN IF ayin /\ m.dev.fffd < 16 THEN m.dev.ay[m.dev.fffd] ELSE 255
+Run(m) == LET e == StepInt(S(m, InValue(m)), TRUE)
+          IN [r |-> e.r, ov |-> m.ov \o e.wr, dev |-> DevAfter(m.dev, e.io), m128 |-> m.m128]
+
+Init == /\ \E p \in Programs : /\ live = [r |-> p[1], ov |-> p[2], dev |-> Dev0, m128 |-> p[3]]
+                                /\ shadow = [r |-> p[1], ov |-> p[2], dev |-> Dev0, m128 |-> p[3]]
         /\ saved = FALSE /\ n = 0
 
 StepBoth == /\ n < MaxSteps
@@ -37,7 +70,10 @@ SaveLoad(fmt) ==
   /\ ~saved
   /\ live' = [live EXCEPT !.r = [live.r EXCEPT ![rHALT] = 0,
                                               ![rT] = StoredT(fmt, live.r[rT]),
-                                              ![rMEMPTR] = IF fmt = "z80" THEN 0 ELSE live.r[rMEMPTR]]]
+                                              ![rMEMPTR] = IF fmt = "z80" THEN 0 ELSE live.r[rMEMPTR]],
+                          !.dev = IF live.m128 = 0 /\ AyLostOn48K
+                                  THEN [live.dev EXCEPT !.fffd = 0, !.ay = [k \in 0..15 |-> 0], !.o7 = 0]
+                                  ELSE live.dev]
   /\ saved' = TRUE
   /\ UNCHANGED <<shadow, n>>
 
@@ -51,4 +87,9 @@ Transparent ==
   /\ \A i \in ObsRegs : live.r[i] = shadow.r[i]
   /\ (live.r[rT] % Frame) = (shadow.r[rT] % Frame)
   /\ \A a \in Touched(live) \cup Touched(shadow) : MemOf(live, a) = MemOf(shadow, a)
+  /\ live.dev.border = shadow.dev.border
+  /\ (live.m128 = 1 => live.dev = shadow.dev)
+
+\* the latch: once bit 5 is set no later write changes it (C08's lock clause, on this machine)
+LockStable == [][Bit(shadow.dev.o7, 5) = 1 => shadow.dev.o7' = shadow.dev.o7]_vars
 =============================================================================
